@@ -153,7 +153,13 @@ pub fn check_written(c: &Written) -> CheckResult {
     let mut names: Vec<String> = Vec::new();
     for n in &c.names { let t = n.trim().to_string(); if t.contains('\n') { continue; } if !Keyring::valid_key_name(&t) { NAMES_REFUSED.fetch_add(1, std::sync::atomic::Ordering::Relaxed); continue; } if !names.contains(&t) { names.push(t); } }
     if names.is_empty() { return ok(false, "no-acceptable-name"); }
+    // one keyring in three also holds, BEFORE the name it extends, a longer name with that name as its beginning
+    if c.seed % 3 == 0 { let longer = format!("{}x", names[0]); if Keyring::valid_key_name(&longer) && !names.contains(&longer) { names.insert(0, longer); } }
     let mut text = String::new(); let mut written = Vec::new();
+    // one keyring in four starts with a hand-made entry whose key text is the first key with its checksum characters
+    // mistyped: the parser takes such entries, but the key in it is not usable and must never answer a lookup by key
+    let typo: Option<String> = if c.seed % 4 == 1 { let sk = gen::key32(c.seed, "c17-sk"); let good = kspec::encode_public_key(&kspec::x25519_base(&sk)); let mut cs: Vec<char> = good.chars().collect(); let i = 43 + (c.seed as usize / 4) % 4; cs[i] = if cs[i] == 'A' { 'B' } else { 'A' }; Some(cs.into_iter().collect()) } else { None };
+    if let Some(t) = &typo { if !names.iter().any(|n| n == "mistyped entry") { text.push_str(&format!("[Key]\nName = mistyped entry\nPublicKey = {}\n\n", t)); } }
     for (i, n) in names.iter().enumerate() {
         let sk = gen::key32(c.seed.wrapping_add(i as u64), "c17-sk"); let pk = kspec::x25519_base(&sk);
         let epk = Keyring::encode_public_key(&PublicKey::try_from(&pk[..]).unwrap());
@@ -168,6 +174,8 @@ pub fn check_written(c: &Written) -> CheckResult {
         let k = kr.get_key(n).ok_or_else(|| format!("name {:?} was written but is not found after parsing", n))?;
         ensure!(&k.name == n && k.public_key.as_str() == epk && k.private_key.as_ref().map(|s| s.as_str()) == Some(esk.as_str()), "entry {:?} reads back with different fields", n);
         ensure!(kr.get_name_from_key(&EncodedPk::try_from(epk.as_str()).unwrap()).as_deref() == Some(n.as_str()), "public key of {:?} maps to {:?} after parsing", n, kr.get_name_from_key(&EncodedPk::try_from(epk.as_str()).unwrap()));
+        // a proper beginning of a name is not that name
+        let cut: String = n.chars().take((n.chars().count() + 1) / 2).collect(); if cut != *n && !cut.is_empty() && cut.trim() == cut && !written.iter().any(|w| w.0 == cut) { ensure!(kr.get_key(&cut).is_none(), "lookup of {:?} (the beginning of a name) answers with the entry written as {:?}", cut, kr.get_key(&cut).map(|k| k.name.clone())); }
         let sw = swapcase(n); if &sw != n && !written.iter().any(|w| w.0 == sw) { ensure!(kr.get_key(&sw).is_none(), "lookup of {:?} answers with the entry written as {:?}", sw, n); }
         let dec = Keyring::decode_public_key(&k.public_key).map_err(|e| format!("written public key does not decode: {}", e))?;
         ensure!(dec.as_bytes() == pk, "decoded public key differs from the key written");
